@@ -204,6 +204,22 @@ impl Monitor for C08 {
                 }
             }
         }
+        // the same position read from text, with every side letter the notation accepts (g / w for Gold, s / b for Silver)
+        if sh.step == 0 && self.states % 16 == 0 {
+            let body = sh.board.to_text(sh.gold, 7);
+            let body = body.splitn(2, '\n').nth(1).unwrap_or("").to_string();
+            for letter in if sh.gold { ['g', 'w'] } else { ['s', 'b'] } {
+                let text = format!("7{}\n{}", letter, body);
+                let r = guard("setup_vs_parse", || text.parse::<GameState>().ok().map(|p| (p.transposition_hash(), p.is_p1_turn_to_move(), p.unwrap_play_phase().hash_history().head().map(|z| z.board_state_hash()))));
+                if let Ok(Some((hp, side, head))) = r {
+                    self.setup_vs_parse += 1;
+                    let exp = self.tables.scratch(&sh.board, sh.gold, 0);
+                    if hp != exp || side != sh.gold || head.map_or(false, |h| h != exp) {
+                        s.violate_game("C08", "parsed_position_hash_ne_from_scratch", o.rec, format!("side letter '{}': parsed side gold={} hash={:#018x} history head={:?}, from scratch {:#018x} {}", letter, side, hp, head, exp, state_text(sh)));
+                    }
+                }
+            }
+        }
         // transpositions: same (board, side, step) must compare equal and hash equal
         let k = (sh.board, sh.gold, sh.step);
         let pf = path_fp(o.rec);
